@@ -14,9 +14,6 @@ import (
 	"errors"
 	"fmt"
 	"io"
-	"math"
-	"math/rand"
-	"reflect"
 	"strings"
 
 	"github.com/parquet-go/parquet-go"
@@ -285,159 +282,6 @@ type tInner struct {
 	Z []int64 `parquet:"z"`
 }
 
-func normSlice[T any](s []T) []T {
-	if len(s) == 0 {
-		return nil
-	}
-	return s
-}
-
-func genFlat(rng *rand.Rand) tFlat {
-	r := tFlat{A: int32(rng.Uint32()), C: fmt.Sprint("s", rng.Intn(5)), E: math.Float64frombits(rng.Uint64()), G: rng.Intn(2) == 0, I: rng.Uint32()}
-	if rng.Intn(3) != 0 {
-		v := int64(rng.Uint64())
-		r.B = &v
-	}
-	if rng.Intn(3) != 0 {
-		r.D = make([]byte, 1+rng.Intn(5))
-		rng.Read(r.D)
-	}
-	if rng.Intn(2) == 0 {
-		r.F = float32(1 + rng.Intn(100))
-	}
-	if rng.Intn(2) == 0 {
-		r.J = int64(1 + rng.Intn(100))
-	}
-	rng.Read(r.H[:])
-	if math.IsNaN(r.E) {
-		r.E = 1.5
-	}
-	return r
-}
-
-func genInner(rng *rand.Rand) tInner {
-	in := tInner{X: int32(rng.Intn(100))}
-	if rng.Intn(2) == 0 {
-		s := fmt.Sprint("y", rng.Intn(9))
-		in.Y = &s
-	}
-	for i := rng.Intn(3); i > 0; i-- {
-		in.Z = append(in.Z, int64(rng.Intn(50)))
-	}
-	return in
-}
-
-func genNested(rng *rand.Rand) tNested {
-	r := tNested{ID: int64(rng.Intn(1000))}
-	for i := rng.Intn(4); i > 0; i-- {
-		r.Tags = append(r.Tags, fmt.Sprint("t", rng.Intn(4)))
-	}
-	for i := rng.Intn(4); i > 0; i-- {
-		r.Nums = append(r.Nums, int32(rng.Intn(100)))
-	}
-	if rng.Intn(2) == 0 {
-		in := genInner(rng)
-		r.Inner = &in
-	}
-	for i := rng.Intn(3); i > 0; i-- {
-		r.Items = append(r.Items, genInner(rng))
-	}
-	for i := rng.Intn(3); i > 0; i-- {
-		var row []int64
-		for j := 1 + rng.Intn(3); j > 0; j-- {
-			row = append(row, int64(rng.Intn(10)))
-		}
-		r.Grid = append(r.Grid, row)
-	}
-	return r
-}
-
-func typedRoundTrip[T any](c *core.Ctx, name string, rows []T, opts ...parquet.WriterOption) {
-	var buf bytes.Buffer
-	func() {
-		defer func() {
-			if r := recover(); r != nil {
-				c.Violation("typed-panic", name+": "+fmt.Sprint(r), map[string]any{"type": name, "rows": len(rows)})
-			}
-		}()
-		w := parquet.NewGenericWriter[T](&buf, opts...)
-		for i := 0; i < len(rows); {
-			k := 1 + (i*7+3)%50
-			if i+k > len(rows) {
-				k = len(rows) - i
-			}
-			if _, err := w.Write(rows[i : i+k]); err != nil {
-				c.Violation("typed-write-error", name+": "+err.Error(), nil)
-				return
-			}
-			i += k
-		}
-		if err := w.Close(); err != nil {
-			c.Violation("typed-write-error", name+": "+err.Error(), nil)
-			return
-		}
-		got, err := parquet.Read[T](bytes.NewReader(buf.Bytes()), int64(buf.Len()))
-		if err != nil {
-			c.Violation("typed-read-error", name+": "+err.Error(), nil)
-			return
-		}
-		if len(got) != len(rows) {
-			c.Violation("typed-row-count", fmt.Sprintf("%s: wrote %d read %d", name, len(rows), len(got)), nil)
-			return
-		}
-		for i := range rows {
-			if !normEqual(reflect.ValueOf(rows[i]), reflect.ValueOf(got[i])) {
-				c.Violation("typed-rows-differ", fmt.Sprintf("%s: row %d: wrote %+v read %+v", name, i, rows[i], got[i]), map[string]any{"type": name, "row": i})
-				return
-			}
-		}
-	}()
-	c.Case("typed/"+name, fmt.Sprint(name, len(rows), buf.Len()), len(rows) >= 2)
-}
-
-// normEqual is reflect.DeepEqual up to the documented mapping: nil and empty
-// slices are the same.
-func normEqual(a, b reflect.Value) bool {
-	if a.Kind() != b.Kind() {
-		return false
-	}
-	switch a.Kind() {
-	case reflect.Slice:
-		if a.Len() != b.Len() {
-			return false
-		}
-		for i := 0; i < a.Len(); i++ {
-			if !normEqual(a.Index(i), b.Index(i)) {
-				return false
-			}
-		}
-		return true
-	case reflect.Array:
-		for i := 0; i < a.Len(); i++ {
-			if !normEqual(a.Index(i), b.Index(i)) {
-				return false
-			}
-		}
-		return true
-	case reflect.Pointer:
-		if a.IsNil() || b.IsNil() {
-			return a.IsNil() == b.IsNil()
-		}
-		return normEqual(a.Elem(), b.Elem())
-	case reflect.Struct:
-		for i := 0; i < a.NumField(); i++ {
-			if !normEqual(a.Field(i), b.Field(i)) {
-				return false
-			}
-		}
-		return true
-	case reflect.Float32, reflect.Float64:
-		return math.Float64bits(a.Float()) == math.Float64bits(b.Float())
-	default:
-		return reflect.DeepEqual(a.Interface(), b.Interface())
-	}
-}
-
 func run(c *core.Ctx) {
 	c.Res.Rule = "random schemas (required/optional/repeated leaves of every physical type and several logical types, groups, LIST groups, depth <= 3) x value trees with boundary values (min/max ints, NaN payloads, -0, infinities, empty and long byte strings, null runs, empty and long lists) shredded by an independent Dremel implementation x writer options (page version, page buffer size, max rows per row group, codec per file and per column, encodings per column, dictionary limit, statistics, write buffer, bloom filters, index size limit) x Write/Flush histories; each file is read back through RowGroup.Rows, parquet.Reader and ColumnChunk.Pages and must equal the written rows value-for-value and level-for-level; plus typed round trips on compiled struct types. Non-trivial = at least 2 rows accepted by the writer; distinct by the JSON of the case."
 	n := c.N(350, 6000)
@@ -449,19 +293,8 @@ func run(c *core.Ctx) {
 		runCase(c, cs, i < 3)
 	}
 	// typed round trips
-	for i := 0; i < c.N(30, 300); i++ {
-		rng := rand.New(rand.NewSource(c.Seed*77 + int64(i)))
-		nr := []int{1, 9, 65, 130, 500}[i%5]
-		flat := make([]tFlat, nr)
-		nested := make([]tNested, nr)
-		for j := range flat {
-			flat[j] = genFlat(rng)
-			nested[j] = genNested(rng)
-			nested[j].Tags = normSlice(nested[j].Tags)
-		}
-		opts := []parquet.WriterOption{parquet.DataPageVersion(1 + i%2), parquet.PageBufferSize(128 << uint(i%6)), parquet.Compression(gen.Codecs[allCodecs[i%len(allCodecs)]])}
-		typedRoundTrip(c, "flat", flat, opts...)
-		typedRoundTrip(c, "nested", nested, opts...)
+	for i := 0; i < c.N(96, 1200); i++ {
+		runTypedCase(c, genTypedCase(c, i), i < 3)
 	}
 }
 
@@ -497,6 +330,11 @@ func runCase(c *core.Ctx, cs gen.Case, sample bool) {
 }
 
 func replay(c *core.Ctx, raw json.RawMessage) {
+	var tc typedCase
+	if err := json.Unmarshal(raw, &tc); err == nil && tc.Typed != "" {
+		runTypedCase(c, tc, true)
+		return
+	}
 	var cs gen.Case
 	if err := json.Unmarshal(raw, &cs); err != nil {
 		c.Note("replay does not hold a generator case")
